@@ -23,5 +23,38 @@ func UnmarshalDuration(v any) (time.Duration, error) {
 
 // MarshalDuration returns the duration on ISO8601 format
 func MarshalDuration(d time.Duration) Marshaler {
-	return MarshalString(dur.Format(d))
+	return MarshalString(formatDuration(d))
+}
+
+// formatDuration splits d into ISO8601 components with integer arithmetic. dur.Format does the
+// split in float64 hours: just below a whole number of months or years it rounds up and prints a
+// negative seconds component (P1YT-0.000000001S), and it overflows on math.MinInt64; neither
+// output can be parsed back.
+func formatDuration(d time.Duration) string {
+	const (
+		hour  = uint64(time.Hour)
+		day   = 24 * hour
+		week  = 7 * day
+		year  = 365 * day
+		month = year / 12
+	)
+	var out dur.Duration
+	ns := uint64(d)
+	if d < 0 {
+		out.Negative = true
+		ns = uint64(-(d + 1)) + 1 // |d| without overflowing on math.MinInt64
+	}
+	take := func(unit uint64) float64 {
+		q := ns / unit
+		ns -= q * unit
+		return float64(q)
+	}
+	out.Years = take(year)
+	out.Months = take(month)
+	out.Weeks = take(week)
+	out.Days = take(day)
+	out.Hours = take(hour)
+	out.Minutes = take(uint64(time.Minute))
+	out.Seconds = float64(ns) / float64(time.Second)
+	return out.String()
 }
